@@ -2764,13 +2764,18 @@ impl WasmGenerator {
                 // `GetUpValue` / `SetUpValue` check `indirect_upvalues` to
                 // decide whether an extra dereference is needed.
                 let mut is_indirect = vec![false; upindexes.len()];
-                for (i, upindex) in upindexes.iter().enumerate() {
+                for (i, (upindex, _)) in upindexes.iter().enumerate() {
                     let upval_byte_offset = ((1 + i) as u32) * 8;
                     // Push address: base + offset
                     func.instruction(&W::LocalGet(self.alloc_base_local));
                     func.instruction(&W::I32Const(upval_byte_offset as i32));
                     func.instruction(&W::I32Add);
                     match upindex.as_ref() {
+                        mir::Value::UpValue(outer_idx) => {
+                            // A variable of a function further out: copy the slot of the
+                            // closure being executed, so that both refer to the same cell.
+                            is_indirect[i] = self.emit_outer_upvalue_slot_load(*outer_idx, func);
+                        }
                         mir::Value::Register(reg_idx)
                             if self
                                 .alloc_register_indirect
@@ -3716,12 +3721,15 @@ impl WasmGenerator {
                 }));
 
                 // Capture upvalues
-                for (i, upindex) in upindexes.iter().enumerate() {
+                for (i, (upindex, _)) in upindexes.iter().enumerate() {
                     let upval_byte_offset = ((1 + i) as u32) * 8;
                     func.instruction(&W::LocalGet(self.alloc_base_local));
                     func.instruction(&W::I32Const(upval_byte_offset as i32));
                     func.instruction(&W::I32Add);
                     match upindex.as_ref() {
+                        mir::Value::UpValue(outer_idx) => {
+                            self.emit_outer_upvalue_slot_load(*outer_idx, func);
+                        }
                         mir::Value::Register(reg_idx)
                             if self
                                 .alloc_register_indirect
@@ -4502,8 +4510,31 @@ impl WasmGenerator {
             mir::Value::None
             | mir::Value::State(_)
             | mir::Value::Global(_)
+            | mir::Value::UpValue(_)
             | mir::Value::Constructor(_, _, _) => ValType::I64,
         }
+    }
+
+    /// Push the raw slot `idx` of the closure being executed (an upvalue of the current
+    /// function) and tell whether that slot holds the address of the variable's cell.
+    fn emit_outer_upvalue_slot_load(&mut self, idx: usize, func: &mut Function) -> bool {
+        use wasm_encoder::Instruction as W;
+        let memarg = MemArg {
+            offset: 0,
+            align: 3,
+            memory_index: 0,
+        };
+        func.instruction(&W::I32Const(0)); // CLOSURE_SELF_PTR_ADDR
+        func.instruction(&W::I64Load(memarg));
+        func.instruction(&W::I64Const(8 + (idx as i64) * 8));
+        func.instruction(&W::I64Add);
+        func.instruction(&W::I32WrapI64);
+        func.instruction(&W::I64Load(memarg));
+        self.indirect_upvalues
+            .get(&self.current_mir_fn_idx)
+            .and_then(|v| v.get(idx))
+            .copied()
+            .unwrap_or(false)
     }
 
     /// Decide whether `Alloc(ty)` should be captured indirectly in closure slots.
